@@ -84,6 +84,25 @@ fn token_touch(cx: &mut Ctx, t: &Token) {
     cx.call("Token::get_source_view");
     let sv = t.get_source_view();
     cx.digest.u64(sv.is_some() as u64);
+    cx.call("Token::sourcemap");
+    cx.digest.u64(t.sourcemap().get_token_count() as u64);
+    if let Some(sv) = sv {
+        // what a symbolicator does next: fetch the original line and a window of it
+        cx.call("SourceView::get_line (embedded contents)");
+        let l = sv.get_line(t.get_src_line());
+        cx.note_str(l);
+        cx.call("SourceView::get_line_slice (embedded contents)");
+        let s1 = sv.get_line_slice(t.get_src_line(), t.get_src_col(), 10);
+        cx.note_str(s1);
+        let s2 = sv.get_line_slice(t.get_src_line(), t.get_src_col(), u32::MAX);
+        cx.note_str(s2);
+        if t.get_dst_col() % 7 == 0 {
+            cx.call("SourceView::line_count (embedded contents)");
+            cx.digest.u64(sv.line_count() as u64);
+            cx.call("SourceView::sourcemap_reference (embedded contents)");
+            cx.digest.u64(sv.sourcemap_reference().map(|r| r.is_some()).unwrap_or(false) as u64);
+        }
+    }
     cx.call("Token formatters");
     let a = format!("{t}");
     let b = format!("{t:#}");
@@ -166,6 +185,19 @@ pub fn regular(cx: &mut Ctx, sm: &SourceMap, full: bool) {
                 if let Some(t) = sm.get_token(i) {
                     token_touch(cx, &t);
                 }
+            }
+        }
+    }
+    if on(9) {
+        // comparisons between tokens (PartialEq / Ord are read-only queries too)
+        let idxs = sample_indices(&mut cx.rng, ntok, 40);
+        for w in idxs.windows(2) {
+            cx.call("SourceMap::get_token");
+            if let (Some(a), Some(b)) = (sm.get_token(w[0]), sm.get_token(w[1])) {
+                cx.call("Token comparisons");
+                cx.digest.u64((a == b) as u64);
+                cx.digest.u64(a.cmp(&b) as i8 as u64);
+                cx.digest.u64((a < b) as u64);
             }
         }
     }
